@@ -1,5 +1,6 @@
 \* "wide": 3 profiles x 4 resources, every association instance possible,
-\* up to 3 instances, every server answer per profile; core query universe
+\* up to 3 instances, every server answer for p1, impl/unsup for the others
+\* ("err" of a referencing profile: Args and Big configurations); core queries
 SPECIFICATION Spec
 CONSTANTS
   Variant = "code"
@@ -10,7 +11,7 @@ CONSTANTS
   A2U <- AWide
   MaxEdges = 3
   Modes1 <- AllModes
-  ModesO <- AllModes
+  ModesO <- ImplUnsup
   QuerySet = "core"
 INVARIANT ImplRefinesReq
 INVARIANT ReqTotal
